@@ -304,6 +304,10 @@ def o_msm_family(case):
             if base in ("PRN", "CELLPRN", "CELLSIG"):
                 body.append((base, None))
             elif base in ("ExtSatInfo", "DF419"):
+                # the 4 bits of extended satellite information are the GLONASS frequency channel number (DF419) in the
+                # GLONASS messages and carry no DF number elsewhere (RTCM 10403.3, MSM5 / MSM7 satellite data)
+                if (base == "DF419") != ident.startswith("108"):
+                    raise Fail("msm-family-extended-info-field", f"{ident}: extended satellite information decoded as {base}")
                 body.append(("EXT", v))
             else:
                 body.append((k, v))
